@@ -53,6 +53,12 @@ func splitHex(s string) []string {
 
 func (c06) Exec(c Case) []string {
 	router := xmpp.NewRouter()
+	// the application has requests of its own pending under these ids; requests FROM other entities that happen to
+	// carry the same id (ids are unique per sender only) are routed like any other request
+	pctx, pcancel := context.WithCancel(context.Background())
+	defer pcancel()
+	router.NewIQResultRoute(pctx, "id-get")
+	router.NewIQResultRoute(pctx, "id-set")
 	var log []int
 	nroutes := 0
 	var obs []string
